@@ -24,6 +24,9 @@ var VerifHooks struct {
 	// NewMux, when set, is told about every new connection multiplexer (a *mux), so that the harness can
 	// give its wires stable names and pin the parallelism it derives from GOMAXPROCS.
 	NewMux func(m any)
+	// RWLock, when set, may take over the acquisition of a sync.RWMutex that is held across I/O (the SHA-1 lock of
+	// a Lua script), so that a goroutine waiting for it is visible to the harness. It returns false to decline.
+	RWLock func(ctx context.Context, mu *sync.RWMutex, write bool) bool
 }
 
 func verifYield(ctx context.Context, site string, obj any, cmd Completed) {
@@ -47,6 +50,18 @@ func verifLocker() sync.Locker {
 		return f()
 	}
 	return &sync.Mutex{}
+}
+
+func verifRLock(ctx context.Context, mu *sync.RWMutex) {
+	if f := VerifHooks.RWLock; f == nil || !f(ctx, mu, false) {
+		mu.RLock()
+	}
+}
+
+func verifWLock(ctx context.Context, mu *sync.RWMutex) {
+	if f := VerifHooks.RWLock; f == nil || !f(ctx, mu, true) {
+		mu.Lock()
+	}
 }
 
 // verifRing rebuilds the slot conditions of a new ring over harness lockers.
